@@ -81,9 +81,6 @@ Definition extends (s : lstate) (d : delta) (s' : lstate) : Prop :=
   l_edges s' = l_edges s ++ d_edges d /\ l_attrs s' = l_attrs s ++ d_attrs d /\ l_prints s' = l_prints s ++ d_prints d /\
   l_params s' = l_params s /\ l_scoped s' = l_scoped s /\ l_prev s' = l_prev s /\ length (l_locals s') = length (l_locals s).
 
-(* shifts of graph ids (ids below gb1 fixed) and of store locations *)
-Definition shg (gb1 gb2 : N) (i : N) : N := if i <? gb1 then i else i - gb1 + gb2.
-Definition shl (kb1 kb2 : N) (l : N) : N := l - kb1 + kb2.
 
 (* a delta created at sizes (gb, kb): fresh nodes carry id-free attributes only; every graph id is a shared
    one (< n0) or one of the delta's own nodes; thunk j only mentions earlier thunks of the delta *)
